@@ -260,9 +260,52 @@ def run_property(pid, tier="quick", seed=0, jobs=None):
             for f in cfuts:
                 cross.append(f.result())
     extras = []
+    extras.append(run_lemmas(pid, tier))
     for fn in EXTRA.get(pid, []):
         extras.append(fn({"pid": pid, "tier": tier, "seed": seed, "known": known}))
     return assemble(pid, tier, seed, cons, results, cross, extras, known, findings, time.time() - t_start)
+
+
+def run_lemmas(pid, tier):
+    """Spec-level lemmas (hand-written inductions, composition lemmas): each part is an obligation."""
+    from .spec import LEMMAS, AXIOMS
+
+    out = {"obligations": 0, "discharged": 0, "violations": [], "undecided": [], "samples": [],
+           "assumptions": [], "by_backend": {}, "solver_time": 0.0}
+    timeout_ms = 10000 if tier == "quick" else 60000
+    for name, lem in LEMMAS.items():
+        if pid not in lem.props:
+            continue
+        for label, assumptions, goal in lem.fn():
+            s = z3.Solver()
+            s.set("timeout", timeout_ms)
+            for a in assumptions:
+                s.add(a)
+            s.add(z3.Not(goal))
+            t0 = time.time()
+            r = s.check()
+            dt = time.time() - t0
+            out["obligations"] += 1
+            out["solver_time"] += dt
+            full = f"lemma:{name}/{label}"
+            if r == z3.unsat:
+                out["discharged"] += 1
+                out["by_backend"]["z3"] = out["by_backend"].get("z3", 0) + 1
+            elif r == z3.sat:
+                out["violations"].append({"kind": "lemma", "name": full, "status": "refuted", "backend": "z3",
+                                          "replay": {"reproduced": False, "obligation": full,
+                                                     "model": str(s.model())[:1500]}})
+            else:
+                out["undecided"].append(f"{full}: solver unknown")
+            out["samples"].append({"obligation": full, "status": str(r), "time_s": round(dt, 3)})
+    used = set()
+    for c in REGISTRY.values():
+        if pid in c.props:
+            for u in c.uses:
+                if u.name in AXIOMS:
+                    used.add(f"definitional axiom {u.name}: {u.note}")
+    out["assumptions"] = sorted(used)
+    return out
 
 
 def match_known(known, target, clause_label, argvals_repr):
@@ -299,8 +342,12 @@ def assemble(pid, tier, seed, cons, results, cross, extras, known, findings, wal
     # a concrete input (and if the clause was discharged, the engine is unsound: crash)
     engine_unsound = []
     discharged_names = {o["name"] for o in obligations if o["status"] == "discharged"}
+    seen_native = set()
     for c in cross:
         for f in c["fails"]:
+            if (c["target"], f["label"]) in seen_native:
+                continue
+            seen_native.add((c["target"], f["label"]))
             con = REGISTRY[c["target"]]
             labels = {cl.label: cl for cl in con.ensures}
             lab = f["label"].split(":", 1)[1] if ":" in f["label"] else f["label"]
@@ -343,6 +390,9 @@ def assemble(pid, tier, seed, cons, results, cross, extras, known, findings, wal
         else:
             lines.append(f"NOTE: known finding {k['id']} no longer reproduces ({detail})")
     os.makedirs(os.path.join(ROOT, "replay"), exist_ok=True)
+    for fn in os.listdir(os.path.join(ROOT, "replay")):
+        if fn.startswith(pid + "_"):
+            os.unlink(os.path.join(ROOT, "replay", fn))
     exit_code = 0
     for i, v in enumerate(unlisted):
         path = os.path.join(ROOT, "replay", f"{pid}_{i}.json")
